@@ -75,10 +75,57 @@ Qed.
 (* ------------------------------------------------------------------ Set on a store *)
 Definition is_prefix (c p : path) : Prop := exists n, c = firstn n p.
 
-Lemma set_store_leaf_frame var s h p v s' ok q :
-  set_store var s h p v = (s', ok) -> q <> p -> get_leaf s' q = get_leaf s q.
+(* prefixes *)
+Lemma is_prefix_b_refl p : is_prefix_b p p = true.
+Proof. induction p; simpl; auto. rewrite N.eqb_refl; auto. Qed.
+Lemma is_prefix_b_app p x : is_prefix_b p (p ++ x) = true.
+Proof. induction p; simpl; auto. rewrite N.eqb_refl; auto. Qed.
+Lemma not_below_neq p q : is_prefix_b p q = false -> q <> p.
+Proof. intros H E; subst. rewrite is_prefix_b_refl in H. discriminate. Qed.
+
+Lemma get_leaf_l_filter (f : path * sval -> bool) l q :
+  (forall v, f (q, v) = true) -> get_leaf_l (filter f l) q = get_leaf_l l q.
 Proof.
-  unfold set_store. intros H Hn.
+  intros Hf. induction l as [|[r v] l IH]; simpl; auto.
+  destruct (f (r, v)) eqn:E; simpl.
+  - destruct (path_eqb r q); auto.
+  - destruct (path_eqb r q) eqn:Q; auto. apply path_eqb_eq in Q; subst. rewrite Hf in E. discriminate.
+Qed.
+Lemma get_leaf_clear_below s p q : is_prefix_b p q = false -> get_leaf (clear_below s p) q = get_leaf s q.
+Proof.
+  intros H. unfold get_leaf, clear_below; simpl. apply get_leaf_l_filter. intros v. simpl. rewrite H. reflexivity.
+Qed.
+Lemma get_leaf_put_obj p q fs : is_prefix_b p q = false -> forall s, get_leaf (put_obj s p fs) q = get_leaf s q.
+Proof.
+  intros H. unfold put_obj. induction fs as [|f fs IH]; intros s; simpl; auto.
+  rewrite IH. apply get_set_other. intros E; subst. rewrite is_prefix_b_app in H. discriminate.
+Qed.
+Lemma conts_put_obj p fs : forall s, conts (put_obj s p fs) = conts s.
+Proof. unfold put_obj. induction fs as [|f fs IH]; intros s; simpl; auto. rewrite IH. reflexivity. Qed.
+Lemma existsb_filter {A} (f g : A -> bool) l :
+  existsb f (filter g l) = existsb (fun x => f x && g x) l.
+Proof.
+  induction l as [|a l IH]; cbn [filter existsb]; auto.
+  destruct (g a) eqn:G; cbn [existsb]; rewrite IH.
+  - rewrite andb_true_r. reflexivity.
+  - rewrite andb_false_r. reflexivity.
+Qed.
+Lemma has_cont_clear_below s p c :
+  has_cont (clear_below s p) c = has_cont s c && (negb (is_prefix_b p c) || path_eqb c p).
+Proof.
+  unfold has_cont, clear_below. cbn [conts]. rewrite existsb_filter.
+  induction (conts s) as [|d l IH]; cbn [existsb]; auto.
+  rewrite IH. destruct (path_eqb c d) eqn:E.
+  - apply path_eqb_eq in E; subst d. cbn [andb orb].
+    destruct (negb (is_prefix_b p c) || path_eqb c p); cbn [andb orb]; auto.
+    rewrite andb_false_r. reflexivity.
+  - cbn [andb orb]. reflexivity.
+Qed.
+
+Lemma set_store_leaf_frame var s h p v s' ok q :
+  set_store var s h p v = (s', ok) -> is_prefix_b p q = false -> get_leaf s' q = get_leaf s q.
+Proof.
+  unfold set_store. intros H Hb. pose proof (not_below_neq _ _ Hb) as Hn.
   assert (G : forall k, (let s1 := add_conts s p (h_conts h) in
                  match convert k v with
                  | Some o => (set_leaf s1 p o, true)
@@ -88,6 +135,8 @@ Proof.
     - rewrite get_set_other by congruence. apply get_leaf_add_conts.
     - destruct (v_set_atomic var); auto. apply get_leaf_add_conts. }
   destruct (h_kind h); try (apply G in H; exact H).
+  - cbv zeta in H. destruct v; try (inversion H; subst; destruct (v_set_atomic var); auto; apply get_leaf_add_conts).
+    inversion H; subst. rewrite get_leaf_put_obj, get_leaf_clear_below by assumption. apply get_leaf_add_conts.
   - inversion H; subst; reflexivity.
   - destruct (forallb _ _); [|inversion H; subst; reflexivity].
     destruct (convert KAny v); inversion H; subst; auto. apply get_set_other; congruence.
@@ -103,12 +152,14 @@ Proof.
                  end) = (s', false) -> s' = s).
   { intros k. cbv zeta. destruct (convert k v); intros E; inversion E; subst; reflexivity. }
   destruct (h_kind h); intros H; try (apply G in H; exact H).
+  - cbv zeta in H. destruct v; inversion H; subst; reflexivity.
   - inversion H.
   - destruct (forallb _ _); [|inversion H; subst; reflexivity].
     destruct (convert KAny v); inversion H; subst; auto.
 Qed.
-Lemma set_store_conts_mono var s h p v s' ok c :
-  set_store var s h p v = (s', ok) -> has_cont s c = true -> has_cont s' c = true.
+(* a container survives a Set unless it lies below the path that was set (a whole entry was replaced) *)
+Lemma set_store_conts_keep var s h p v s' ok c :
+  set_store var s h p v = (s', ok) -> has_cont s c = true -> has_cont s' c = true \/ is_prefix_b p c = true.
 Proof.
   unfold set_store. intros H Hc.
   assert (G : forall k, (let s1 := add_conts s p (h_conts h) in
@@ -119,24 +170,34 @@ Proof.
   { intros k. cbv zeta. destruct (convert k v); intros E; inversion E; subst.
     - rewrite has_cont_set_leaf, has_cont_add_conts, Hc; reflexivity.
     - destruct (v_set_atomic var); auto. rewrite has_cont_add_conts, Hc; reflexivity. }
-  destruct (h_kind h); try (apply G in H; exact H).
-  - inversion H; subst; assumption.
-  - destruct (forallb _ _); [|inversion H; subst; assumption].
+  destruct (h_kind h); try (left; apply G in H; exact H).
+  - cbv zeta in H.
+    destruct v; try (left; inversion H; subst; destruct (v_set_atomic var); auto; rewrite has_cont_add_conts, Hc; reflexivity).
+    inversion H; subst. unfold has_cont at 1. rewrite conts_put_obj. fold (has_cont (clear_below (add_conts s p (h_conts h)) p) c).
+    rewrite has_cont_clear_below, has_cont_add_conts, Hc. simpl.
+    destruct (is_prefix_b p c); [right; reflexivity | left; reflexivity].
+  - left. inversion H; subst; assumption.
+  - left. destruct (forallb _ _); [|inversion H; subst; assumption].
     destruct (convert KAny v); inversion H; subst; auto.
 Qed.
 Lemma set_store_conts_new s h p v s' c :
   set_store Repaired s h p v = (s', true) -> has_cont s' c = true -> has_cont s c = true \/ is_prefix c p.
 Proof.
   unfold set_store. intros H Hc.
+  assert (A : has_cont (add_conts s p (h_conts h)) c = true -> has_cont s c = true \/ is_prefix c p).
+  { intros H1. rewrite has_cont_add_conts in H1. apply orb_true_iff in H1 as [H1|H1]; auto.
+    right. apply existsb_exists in H1 as [n [_ Hn]]. apply path_eqb_eq in Hn. exists n; auto. }
   assert (G : forall k, (let s1 := add_conts s p (h_conts h) in
                  match convert k v with
                  | Some o => (set_leaf s1 p o, true)
                  | None => (if v_set_atomic Repaired then s else s1, false)
                  end) = (s', true) -> has_cont s c = true \/ is_prefix c p).
   { intros k. cbv zeta. destruct (convert k v); intros E; inversion E; subst.
-    rewrite has_cont_set_leaf, has_cont_add_conts in Hc. apply orb_true_iff in Hc as [H1|H1]; auto.
-    right. apply existsb_exists in H1 as [n [_ Hn]]. apply path_eqb_eq in Hn. exists n; auto. }
+    rewrite has_cont_set_leaf in Hc. auto. }
   destruct (h_kind h); try (apply G in H; exact H).
+  - cbv zeta in H. destruct v; inversion H; subst.
+    unfold has_cont in Hc. rewrite conts_put_obj in Hc. fold (has_cont (clear_below (add_conts s p (h_conts h)) p) c) in Hc.
+    rewrite has_cont_clear_below in Hc. apply andb_true_iff in Hc as [Hc _]. auto.
   - inversion H; subst; auto.
   - destruct (forallb _ _); [|inversion H].
     destruct (convert KAny v); inversion H; subst; auto.
@@ -356,9 +417,11 @@ Qed.
 
 (* ------------------------------------------------------------------ the invariant *)
 Arguments expire : simpl never.
+(* [q] is at or below a path this session has set (a whole-entry Set touches everything below it) *)
+Definition touched (chs : list change) (q : path) : bool := existsb (fun c => is_prefix_b (c_path c) q) chs.
 Definition agrees (cand run : store) (chs : list change) : Prop :=
-  (forall p, ~ In p (map c_path chs) -> get_leaf cand p = get_leaf run p) /\
-  (forall c, has_cont run c = true -> has_cont cand c = true) /\
+  (forall q, touched chs q = false -> get_leaf cand q = get_leaf run q) /\
+  (forall c, has_cont run c = true -> has_cont cand c = true \/ touched chs c = true) /\
   (forall c, has_cont cand c = true -> has_cont run c = true \/ exists p, In p (map c_path chs) /\ is_prefix c p).
 
 (* at most one session; it owns the lock; its configuration object is not the running or the startup
@@ -498,14 +561,19 @@ Proof.
   right. exists s. repeat split; auto; try apply Hg. lia.
 Qed.
 
+Lemma touched_app chs c q : touched (chs ++ [c]) q = touched chs q || is_prefix_b (c_path c) q.
+Proof. unfold touched. rewrite existsb_app. simpl. rewrite orb_false_r. reflexivity. Qed.
+
 Lemma agrees_set cand run chs h p v cand' :
   agrees cand run chs -> set_store Repaired cand h p v = (cand', true) ->
-  forall o, agrees cand' run (chs ++ [{| c_path := p; c_old := o; c_new := v |}]).
+  forall o sm, agrees cand' run (chs ++ [{| c_path := p; c_old := o; c_new := v; c_same := sm |}]).
 Proof.
-  intros [A1 [A2 A3]] Hs o. repeat split.
-  - intros q Hq. rewrite map_app, in_app_iff in Hq. simpl in Hq.
-    rewrite (set_store_leaf_frame _ _ _ _ _ _ _ q Hs); [apply A1|]; intuition.
-  - intros c Hc. eapply set_store_conts_mono; eauto.
+  intros [A1 [A2 A3]] Hs o sm. repeat split.
+  - intros q Hq. rewrite touched_app in Hq. apply orb_false_iff in Hq as [Hq1 Hq2]. simpl in Hq2.
+    rewrite (set_store_leaf_frame _ _ _ _ _ _ _ q Hs Hq2). apply A1; auto.
+  - intros c Hc. rewrite touched_app. simpl. apply A2 in Hc as [Hc|Hc].
+    + eapply set_store_conts_keep in Hc; eauto. destruct Hc as [Hc|Hc]; [left; auto | right; rewrite Hc; apply orb_true_r].
+    + right. rewrite Hc. reflexivity.
   - intros c Hc. eapply set_store_conts_new in Hc; eauto. destruct Hc as [Hc|Hc].
     + apply A3 in Hc as [Hc|[q [Hq Hp]]]; auto. right. exists q. rewrite map_app, in_app_iff. auto.
     + right. exists p. rewrite map_app, in_app_iff. simpl. auto.
@@ -545,7 +613,7 @@ Proof.
   right. eexists; split; [reflexivity|]. simpl.
   split; [exact Hl|]. split; [exact Hb|]. split; [exact N1|]. split; [exact N2|].
   destruct ok.
-  - exact (agrees_set _ _ _ _ _ _ _ Hg Est _).
+  - exact (agrees_set _ _ _ _ _ _ _ Hg Est _ _).
   - apply set_store_failed_atomic in Est. subst. exact Hg.
 Qed.
 
@@ -592,8 +660,8 @@ Lemma frame var reg g st id f st' evs :
   exists s, find_session (sessions (expire st)) id = Some s /\ s_changes s <> [] /\
     running st' = s_cand s /\ startup st' = s_cand s /\ sfile st' = Some (scrub g (s_cand s)) /\
     (frr st' = frr st \/ frr st' = Some (running st')) /\
-    (forall p, ~ In p (map c_path (s_changes s)) -> get_leaf (running st') p = get_leaf (running st) p) /\
-    (forall c, has_cont (running st) c = true -> has_cont (running st') c = true) /\
+    (forall p, touched (s_changes s) p = false -> get_leaf (running st') p = get_leaf (running st) p) /\
+    (forall c, has_cont (running st) c = true -> has_cont (running st') c = true \/ touched (s_changes s) c = true) /\
     (forall c, has_cont (running st') c = true -> has_cont (running st) c = true \/
                exists p, In p (map c_path (s_changes s)) /\ is_prefix c p) /\
     trace_kept evs.
@@ -863,4 +931,37 @@ Lemma boot_validates var reg g st cfg steps em f st' r evs :
 Proof.
   intros HB. unfold do_boot. rewrite HB. cbv zeta. cbn [andb]. intros H HP. rewrite HP in H.
   simpl in H. inversion H; subst; auto.
+Qed.
+
+(* ------------------------------------------------------------------ whole-entry Set (struct-valued patterns) *)
+Lemma get_leaf_l_filter_none (f : path * sval -> bool) l q :
+  (forall v, f (q, v) = false) -> get_leaf_l (filter f l) q = None.
+Proof.
+  intros Hf. induction l as [|[r v] l IH]; simpl; auto.
+  destruct (f (r, v)) eqn:E; simpl; auto.
+  destruct (path_eqb r q) eqn:Q; auto. apply path_eqb_eq in Q; subst. rewrite Hf in E. discriminate.
+Qed.
+Lemma get_leaf_put_obj_other p fs q : (forall f, In f fs -> q <> p ++ [fst f]) ->
+  forall s, get_leaf (put_obj s p fs) q = get_leaf s q.
+Proof.
+  unfold put_obj. induction fs as [|f fs IH]; intros H s; simpl; auto.
+  rewrite IH by (intros; apply H; right; auto). apply get_set_other. intros E. apply (H f); auto. left; auto.
+Qed.
+(* a successful Set of a struct-valued path replaces the entry: no leaf and no container of the old entry
+   survives below it, whatever variant *)
+Lemma obj_set_replaces var s h p fs s' :
+  h_kind h = KObj -> set_store var s h p (VObj fs) = (s', true) ->
+  (forall q, is_prefix_b p q = true -> (forall f, In f fs -> q <> p ++ [fst f]) -> get_leaf s' q = None) /\
+  (forall c, has_cont s' c = true -> is_prefix_b p c = true -> c = p) /\
+  (forall q, is_prefix_b p q = false -> get_leaf s' q = get_leaf s q).
+Proof.
+  intros HK H. pose proof H as H0. unfold set_store in H. rewrite HK in H. cbv zeta in H. inversion H; subst; clear H.
+  repeat split.
+  - intros q Hb Hf. rewrite get_leaf_put_obj_other by assumption.
+    unfold get_leaf, clear_below; simpl. apply get_leaf_l_filter_none. intros v. simpl. rewrite Hb. reflexivity.
+  - intros c Hc Hb. unfold has_cont in Hc. rewrite conts_put_obj in Hc.
+    fold (has_cont (clear_below (add_conts s p (h_conts h)) p) c) in Hc.
+    rewrite has_cont_clear_below, Hb in Hc. apply andb_true_iff in Hc as [_ Hc]. simpl in Hc.
+    apply path_eqb_eq in Hc. exact Hc.
+  - intros q Hb. eapply set_store_leaf_frame; eauto.
 Qed.
